@@ -28,6 +28,8 @@ type Script struct {
 	Turns []string   `json:"turns,omitempty"`
 	Size  int        `json:"size,omitempty"` // rows per emitted batch (default 1)
 	Meta  bool       `json:"meta,omitempty"`
+	// PosVal makes exchange turns emit their 1-based turn number instead of input+1000.
+	PosVal bool `json:"posval,omitempty"`
 }
 
 // Encode renders the script parameter.
@@ -269,6 +271,9 @@ func (s *ExchState) Exchange(_ context.Context, in arrow.RecordBatch, out *vgirp
 			Note(s.Script.SID, fmt.Sprintf("input-type:%s", in.Column(0).DataType()))
 		}
 	}
+	if s.Script.PosVal {
+		return s.turn(o, int64(s.Pos), out)
+	}
 	return s.turn(o, a+1000, out)
 }
 
@@ -293,6 +298,9 @@ func (s *ExchState2) Exchange(_ context.Context, in arrow.RecordBatch, out *vgir
 		if col, ok := in.Column(0).(*array.Int64); ok {
 			a = col.Value(0)
 		}
+	}
+	if s.Script.PosVal {
+		return s.turn(o, int64(s.Pos), out)
 	}
 	return s.turn(o, a+2000, out)
 }
